@@ -608,7 +608,12 @@ def add_clash(rng, callables, enums, consts, same=True):
     r = rng
     targets = [c for c in callables if c['kind'] == 'function' and c['ret'] == 'integer' and not c.get('recursive')]
     if not targets:
-        return None
+        # no integer function in this model: a small one of its own
+        hb = [['return', ['int', r.choice([1, 2, 5])]]]
+        h = _sig('function', 'fnz', None, [], 'integer', True)
+        h.update(recursive=False, level=0, body=hb, text=G.render(hb), cost=1)
+        callables.append(h)
+        targets = [h]
     c = r.choice(targets)
     args = []
     for n, t in c['params']:
